@@ -340,6 +340,26 @@ def hints_signature(ins, outs, names):
     return _GridUFuncSignature.from_type_hints(dict(ann))
 
 
+def hinted_function_signatures(ins, outs, names):
+    """the same hints on a real function, wrapped twice by as_grid_ufunc (the second time with other options): both
+    wrappings denote the signature, and the function keeps its annotations"""
+    from xgcm.grid_ufunc import as_grid_ufunc
+    ann = {}
+    for i, a in enumerate(ins):
+        ann["a%d" % i] = Annotated[np.ndarray, ",".join("%s:%s" % (names[n], p) for n, p in a)]
+    outs_ann = [Annotated[np.ndarray, ",".join("%s:%s" % (names[n], p) for n, p in a)] for a in outs]
+    ann["return"] = outs_ann[0] if len(outs_ann) == 1 else Tuple[tuple(outs_ann)]
+    src = "def f(%s):\n    return None\n" % ", ".join("a%d" % i for i in range(len(ins)))
+    ns = {}
+    exec(src, ns)
+    f = ns["f"]
+    f.__annotations__ = dict(ann)
+    before = dict(f.__annotations__)
+    first = str(as_grid_ufunc()(f).signature)
+    second = str(as_grid_ufunc(boundary="extend")(f).signature)
+    return first, second, dict(f.__annotations__) == before
+
+
 def case_templates(W, cfg):
     from xgcm.grid_ufunc import _GridUFuncSignature
     triples = NAME_TRIPLES
@@ -378,6 +398,13 @@ def case_templates(W, cfg):
             W.require("type-hints=string", str(hs) == s, "hints give %r, string %r" % (str(hs), s))
         except Exception as e:  # noqa
             W.require("type-hints=string", False, "%r as type hints refused: %s: %s" % (s, type(e).__name__, e))
+        if outs and all(len(a) > 0 for a in outs):
+            try:
+                h1, h2, kept = hinted_function_signatures(ins, outs, names)
+                W.require("type-hints=string", h1 == s and h2 == s, "function wrapped twice: hints give %r then %r, string %r" % (h1, h2, s))
+                W.require("type-hints-function-keeps-its-annotations", kept, "%r: __annotations__ of the wrapped function changed" % s)
+            except Exception as e:  # noqa
+                W.require("type-hints=string", False, "%r as an annotated function refused: %s: %s" % (s, type(e).__name__, e))
         # equivalence <=> consistent renaming
         variants = []
         variants.append(("renamed", ins, outs, other))
